@@ -274,7 +274,9 @@ func runC15(p *Prog, r *Report, tier string) {
 					"store value used outside the recognised idioms: "+e.Region)
 			case "R", "W", "D", "ITER", "PAGE":
 				nPrim++
-				regions[e.Region] = true
+				if !e.Late {
+					regions[e.Region] = true
+				}
 				top := fn
 				for top.Parent() != nil {
 					top = top.Parent()
@@ -290,6 +292,15 @@ func runC15(p *Prog, r *Report, tier string) {
 				continue // CLI: gRPC client stubs (types.QueryClient / MsgClient), not consensus code
 			}
 			r.fail("store-confinement", "unresolved/"+funcName(fn)+"/"+u, p.pos(fn.Pos()), "unresolved dynamic call in module code: "+u)
+		}
+	}
+	// regions addressed through a new helper's parameters resolve at the helper's callers
+	for _, fn := range p.Funcs {
+		for _, e := range p.own(fn) {
+			switch e.Kind {
+			case "R", "W", "D", "ITER", "PAGE":
+				regions[e.Region] = true
+			}
 		}
 	}
 	r.check(len(outside) == 0, "store-confinement", "confinement/primitives-only-in-keeper-accessors", "",
